@@ -620,8 +620,11 @@ def sub_pairs(acc, shard, nshards, tier, seed):
     for name, content in INC.items():
         with open(os.path.join(tmp, name), "w") as fh:
             fh.write(content)
-    base_cfg = clean_cfg({"enable_extensions": ["html_image", "html_admonition", "strikethrough", "colon_fence", "deflist", "tasklist"],
-                          "heading_anchors": 2})
+    # two configurations: with the extensions that directives switch on for their own body already enabled (a leak of
+    # those would be invisible), and without them
+    base_cfgs = [clean_cfg({"enable_extensions": ["html_image", "html_admonition", "strikethrough", "colon_fence", "deflist", "tasklist"],
+                            "heading_anchors": 2}),
+                 clean_cfg({"enable_extensions": ["colon_fence"], "heading_anchors": 1})]
     seconds = [("obs", k, t) for k, t in enumerate(OBSERVERS)]
     modes = ["shared", "settings", "sphinx"] if shard % 2 == 0 else ["shared", "settings"]
     i = 0
@@ -629,6 +632,7 @@ def sub_pairs(acc, shard, nshards, tier, seed):
         for mode in modes:
             for wi, wtext in enumerate(STATEFUL):
                 for kind, k, otext in seconds + [("again", wi, wtext)]:
+                  for base_cfg in base_cfgs:
                     i += 1
                     if i % nshards != shard:
                         continue
